@@ -17,7 +17,7 @@ theorem quorum12 : IsQuorum cfg3 [1, 2] := by
   rcases hv with h | h <;> subst h <;> decide
 
 def q1 : RVMsg := ⟨1, 1, 0, 0⟩
-def msg1 : AEMsg := ⟨1, 0, 0, [⟨1, 0⟩, ⟨1, 42⟩], 0⟩
+def msg1 : AEMsg := ⟨1, 0, 0, [⟨1, 0⟩, ⟨1, 42⟩], 0, 0⟩
 
 def s1 : AState := { init with
   nodes := setNode init 1 { init.nodes 1 with term := (init.nodes 1).term + 1, role := .candidate },
@@ -52,9 +52,9 @@ def s4 : AState := { s3 with
 theorem step4 : Step cfg3 s3 s4 := Step.clientAppend s3 1 42 (by decide)
 
 def s5 : AState := { s4 with
-  aes := ⟨(s4.nodes 1).term, 0, termAt (s4.nodes 1).log 0, ((s4.nodes 1).log.drop 0).take 2, (s4.nodes 1).commit⟩ :: s4.aes }
+  aes := ⟨(s4.nodes 1).term, 0, termAt (s4.nodes 1).log 0, ((s4.nodes 1).log.drop 0).take 2, (s4.nodes 1).commit, 0⟩ :: s4.aes }
 
-theorem step5 : Step cfg3 s4 s5 := Step.sendAE s4 1 0 2 (by decide) (by decide)
+theorem step5 : Step cfg3 s4 s5 := Step.sendAE s4 1 0 2 0 (by decide) (by decide)
 
 theorem msg1_in : msg1 ∈ s5.aes := by decide
 
